@@ -90,6 +90,29 @@ def run(prog, rep):
     for c in ids:
         rule.check(need <= mask_of(c.c[1]), 'close|ids-mask', rep.where(c), cl.q,
                    'H5Fget_obj_ids asks for groups, datasets and datatypes', 'H5Fget_obj_ids mask lacks one of %s' % sorted(need))
+    # (2b) the enumeration is unconditional: every normally returning path of close() on an open file asks libhdf5 how many
+    # objects are open, and fetches their ids unless that count is 0 (no mode, flag or state decides to skip the sweep)
+    from ..absint import GenericInterp
+    itp = GenericInterp(prog, watch=lambda n: (n.callee or {}).get('name') in ('H5Fget_obj_count', 'H5Fget_obj_ids', 'H5Oclose', 'close', 'H5Iget_ref'))
+    itp.loop_once = True
+    pprobs = []
+    npaths = 0
+    for assign, out, log, fields in itp.enumerate(cl, this='THIS', args=[]):
+        if out[0] != 'ret' or assign.get(('bool', 'isOpen', 'THIS')) is not True:
+            continue
+        npaths += 1
+        nm = [l[0] for l in log]
+        if 'H5Fget_obj_count' not in nm:
+            pprobs.append('a path closes the file without asking for the open objects (taken when %s)' % ' && '.join(('' if v else '!') + repr(k)[:60] for k, v in sorted(assign.items(), key=repr) if 'isOpen' not in repr(k) and 'loop' not in repr(k)))
+            continue
+        pos = [v for k, v in assign.items() if k[0] == 'cmp' and k[1] == '<' and k[2] == 0 and 'H5Fget_obj_count' in repr(k[3])]
+        if 'H5Fget_obj_ids' not in nm and not (pos and pos[0] is False):
+            pprobs.append('a path skips H5Fget_obj_ids although the count of open objects was not established to be 0')
+        if nm[-1:] != ['close']:
+            pprobs.append('a path does not end with H5Object::close() on the file id')
+    if not npaths:
+        pprobs.append('no returning path on an open file')
+    rule.check(not pprobs, 'close|sweep-unconditional', rep.where(cl), cl.q, 'every returning path on an open file enumerates the open objects (%d abstract paths)' % npaths, '; '.join(sorted(set(pprobs))[:2]))
     # (3) every open object id is obtained and closed H5Iget_ref(id) times
     from ..sem import Flow
     fl = Flow(sem, cl)
